@@ -625,6 +625,7 @@ func (ex *Exec) convert(s *State, v Value, from, to types.Type, site string) Val
 		case isInt(from) && isString(to):
 			// rune to string: opaque content, length 1..4
 			r := ex.opaqueStr(s)
+			ex.restrictions++
 			ex.assume(s, tb.And(tb.Sle(ex.i64(1), r.ln), tb.Sle(r.ln, ex.i64(4))))
 			return r
 		}
